@@ -207,6 +207,7 @@ def run_case(rec, case):
         rec.count("closest.handler_info_filesets")
     try:
         reg = fm.materialise(base, layout, files, rng=rng_for(0, "junk", 0))
+        rec.count("population.stray_date_like_directories", fm.LAST["strays"])
         if fs_kw:
             fs_kw.pop("_table").update({os.path.abspath(p): f for p, f in reg.items()})
         by_id = {f["id"]: p for p, f in reg.items()}
@@ -229,6 +230,23 @@ def run_case(rec, case):
         else:
             fs = fm.make_fileset(base, layout, name="F", exclude=excl or None,
                                  handler=FileHandler(reader=reader, info=fs_kw.pop("_info", None)), **fs_kw)
+        if len(files) % 2 == 0 and not case.get("no_sibling"):
+            # object history across two objects: a copy is re-configured (its user placeholder limited to
+            # one value, another path - as move() / map(output=...) do with their copies) and searched;
+            # the look-ups below go to the original
+            try:
+                sib = fs.copy()
+                if layout.with_sat:
+                    sib.set_placeholders(sat="zz-n18-b")
+                try:
+                    sib.find_closest(dt.datetime(2017, 6, 1))
+                except Exception:
+                    pass
+                sib.path = base.rstrip("/") + "/elsewhere/{year}/{month}/x_{day}{hour}{minute}{second}.bin"
+                rec.count("closest.with_reconfigured_copy")
+            except Exception as exc:
+                rec.violation("closest-exception", case, {"where": "copy() of the fileset re-configured",
+                                                          "exception": repr(exc)})
         shared = {}
         # population history: some files (whole new directories among them) arrive while the object is
         # in use - they are held back outside the tree and moved in after the first searches
